@@ -136,6 +136,11 @@ structure Quirks where
 
 def Quirks.today : Quirks := ⟨true, true, true, true, true, true⟩
 def Quirks.fixed : Quirks := ⟨false, false, false, false, false, false⟩
+/-- the code after the fix commits for F-C11-3, F-C11-4, F-C11-5 and F-C11-6 (F-C11-1 and F-C11-2 are still open):
+this is the setting the correspondence ties to the code (`model=`) -/
+def Quirks.now : Quirks :=
+  { existsByValue := true, selIndependent := true, relOnlyIterable := false, declaredOwner := false,
+    lazyFlatten := false, falsyValueIsNoType := false }
 
 /-! ### `desugar` -/
 
@@ -204,8 +209,9 @@ def resolveVal (Q : Quirks) (s : Schema) (sub : List (Nat × Nat)) (fi : FieldIn
         match need, cls with
         | true, some c => [Cond.hasType t' c]
         | _, _ =>
-          -- quirk off: a flattened collection is always asked for an element (of the matched / declared type)
-          if !Q.lazyFlatten && fi.iter Q then
+          -- quirk off (`AttributeAssignment.resolve` after the fix): when nothing else constrains the element of a
+          -- collection its type is checked (matched type, else declared type), so that the element has to exist
+          if !Q.lazyFlatten && fi.iter Q && cs.isEmpty then
             (match cls.orElse (fun _ => fi.type) with | some c => [Cond.hasType t' c] | none => [])
           else []
       some (filt ++ cs,
@@ -504,6 +510,46 @@ end
 def Pat.trigFalsyValue : Pat → Bool
   | .mk _ _ as => as.trigFalsyValue
 
+/-! #### the triggers of the findings that are still open, for an arbitrary quirk setting of `desugar`
+
+(`trigExFirst` above follows `desugar Quirks.today`; after the fix commits the conditions are those of
+`desugar Quirks.now`: every nested match on a collection is flattened and `match_any([])` is a condition.) -/
+
+def condsOfValQ (Q : Quirks) (s : Schema) (sub : List (Nat × Nat)) (fi : FieldInfo) (a : MTerm) (av : AVal) :
+    List Cond :=
+  match resolveVal Q s sub fi a av with
+  | some (cs, _) => cs
+  | none => []
+
+mutual
+def Assigns.trigExFirstQ (Q : Quirks) (s : Schema) (sub : List (Nat × Nat)) (owner : Option Nat) (t : MTerm) :
+    Assigns → Bool
+  | .nil => false
+  | .cons n av rest =>
+    (match fieldOf s owner n with
+     | some fi => av.trigExFirstQ Q s sub fi (.attr t n)
+     | none => false) || rest.trigExFirstQ Q s sub owner t
+def AVal.trigExFirstQ (Q : Quirks) (s : Schema) (sub : List (Nat × Nat)) (fi : FieldInfo) (a : MTerm) : AVal → Bool
+  | .nested (.mk cls sel as) =>
+    (fi.iter Q && firstIsEx (condsOfValQ Q s sub fi a (.nested (.mk cls sel as)))) ||
+      as.trigExFirstQ Q s sub
+        (if !Q.declaredOwner && typeFilterNeeded sub fi.type cls then cls else fi.type)
+        (nestedNode Q sub fi a cls as)
+  | _ => false
+end
+
+/-- F-C11-1 for the conditions `desugar Q` builds -/
+def Pat.trigExFirstQ (Q : Quirks) (s : Schema) (sub : List (Nat × Nat)) : Pat → Bool
+  | .mk cls _ as =>
+    firstIsEx (match resolveAssigns Q s sub cls .root as with | some (cs, _) => cs | none => []) ||
+      as.trigExFirstQ Q s sub cls .root
+
+/-- the findings that are still open (F-C11-1, F-C11-2), for the code as it is now -/
+def openTriggers (w : World) (s : Schema) (p : Pat) : List String :=
+  (if p.trigExFirstQ Quirks.now s w.subclass then ["F-C11-1"] else []) ++
+  (if trigCrossProduct (desugar Quirks.now s w.subclass p) then ["F-C11-2"] else [])
+
+/-- the six shapes the theorems exclude (the triggers of all findings ever recorded, as of the code before the fixes) -/
 def triggers (w : World) (s : Schema) (p : Pat) : List String :=
   (if p.trigExFirst s w.subclass then ["F-C11-1"] else []) ++
   (if trigCrossProduct (desugar Quirks.today s w.subclass p) then ["F-C11-2"] else []) ++
